@@ -110,7 +110,8 @@ class NonTrainable(AbstractUnwrappable[T]):
     _dummy: ClassVar[None] = None
 
     def unwrap(self) -> T:
-        differentiable, static = eqx.partition(self.tree, eqx.is_array_like)
+        # is_array (not is_array_like): python scalars are static fields such as shapes
+        differentiable, static = eqx.partition(self.tree, eqx.is_array)
         return eqx.combine(lax.stop_gradient(differentiable), static)
 
 
